@@ -32,6 +32,7 @@ func c01Pair[V univers.Version[V], VR univers.VersionRange[V]](e univers.Ecosyst
 	va2, ea2 := e.NewVersion(a)
 	vv.Assert(ea2 == nil, "C01: second parse of the same text fails")
 	vv.Assume(ea2 == nil)
+	vv.Reached()
 	vv.Assert(both(va.Compare(va2) == 0, va2.Compare(vb) == x), "C01: a second parse of the same text compares differently")
 }
 
@@ -42,8 +43,10 @@ func c01Triple[V univers.Version[V], VR univers.VersionRange[V]](e univers.Ecosy
 	vv.Assume(eb == nil)
 	vc, ec := e.NewVersion(c)
 	vv.Assume(ec == nil)
+	vv.Reached()
 	// the property's sole exclusion: alpm triples mixing versions with and without a pkgrel
 	vv.Assume(!c01AlpmMixedPkgrel(e.Name(), a, b, c))
+	vv.Assume(!vv.Known("KF-C01-alpm-direct-suffix-heuristic", alpmGlued(e.Name(), a, b, c)))
 	ab := va.Compare(vb)
 	bc := vb.Compare(vc)
 	ac := va.Compare(vc)
@@ -57,6 +60,22 @@ func hasHyphen(s string) bool {
 	for i := 0; i < len(s); i++ {
 		if s[i] == '-' {
 			return true
+		}
+	}
+	return false
+}
+
+// alpmGlued: an alpm text in which a letter directly follows a digit (1.0a, 1.0rc1): the inputs
+// for which compareALMPVersionString's text-prefix heuristic (isDirectSuffixComparison) can fire.
+func alpmGlued(eco string, texts ...string) bool {
+	if eco != "alpm" {
+		return false
+	}
+	for _, s := range texts {
+		for i := 1; i < len(s); i++ {
+			if isDig(s[i-1]) && isAlpha(s[i]) {
+				return true
+			}
 		}
 	}
 	return false
